@@ -750,10 +750,12 @@ func hangLimit() time.Duration {
 func guardHang(prop string, c *Case, s *Stats, what string, f func() error) error {
 	done := make(chan error, 1)
 	go func() { done <- guard(what, f) }()
+	tm := time.NewTimer(hangLimit())
+	defer tm.Stop()
 	select {
 	case err := <-done:
 		return err
-	case <-time.After(hangLimit()):
+	case <-tm.C:
 		path := writeReplay(prop, c)
 		fmt.Printf("VIOLATION property=%s replay=%s\n", prop, path)
 		fmt.Printf("DETAIL property=%s non-termination: %s did not return within %v (%d keys)\n", prop, what, hangLimit(), len(c.Keys))
